@@ -1,6 +1,9 @@
 package props
 
 import (
+	"github.com/uhn/ggql/pkg/ggql"
+
+	"strings"
 	"fmt"
 	"time"
 
@@ -335,9 +338,112 @@ func runC08(c *core.Ctx) {
 			}
 		}
 	}
+	c08NameProbes(c)
 	_ = k
-	c.R.Bound = "49 membership variants x 7 abstract bases x 5 binding modes x 2 graphs; mutation depth per variant: quick 0 (9 corner variants 1), thorough 1 (default variant 2); + all ordered request pairs on one root (10 x 7 documents) and every single implements / union-member extension loaded between requests, for the 9 corner variants (thorough: all 49)"
+	c.R.Bound = "49 membership variants x 7 abstract bases x 5 binding modes x 2 graphs; mutation depth per variant: quick 0 (9 corner variants 1), thorough 1 (default variant 2); + all ordered request pairs on one root (10 x 7 documents) and every single implements / union-member extension loaded between requests, for the 9 corner variants (thorough: all 49); + Go type names containing one another x 5 bindings x all member and value orders"
 	if !completed {
 		c.Cap("deadline reached")
+	}
+}
+
+// ---- Part D: Go type names that contain one another (suffix, prefix). Binding by name or by @go must go by the whole
+// name: Lynx, SnowLynx and LynxCub are three different types however they reach a cold root.
+
+type Lynx struct{ Name string }
+type SnowLynx struct{ Name string }
+type LynxCub struct{ Name string }
+type c08NQuery struct {
+	Cats   []interface{}
+	Beasts []interface{}
+}
+type c08NRoot struct{ Query *c08NQuery }
+
+func c08NameProbes(c *core.Ctx) {
+	names := []string{"Lynx", "SnowLynx", "LynxCub"}
+	mk := func(n string) interface{} {
+		switch n {
+		case "Lynx":
+			return &Lynx{Name: "l"}
+		case "SnowLynx":
+			return &SnowLynx{Name: "s"}
+		}
+		return &LynxCub{Name: "c"}
+	}
+	val := map[string]string{"Lynx": "l", "SnowLynx": "s", "LynxCub": "c"}
+	bindings := []string{"byname-cold", "go-short", "go-pkg", "go-full", "register"}
+	var idx int64
+	for _, b := range bindings {
+		for _, mperm := range permutations(3) {
+			for _, dperm := range permutations(3) {
+				idx++
+				if !c.OwnsIdx(idx) {
+					continue
+				}
+				c.Eval()
+				c.R.Distinct++
+				c.Nontrivial()
+				var sdl strings.Builder
+				sdl.WriteString("type Query { cats: [Cats] beasts: [Beast] }\ninterface Beast { name: String }\n")
+				for _, n := range names {
+					god := ""
+					switch b {
+					case "go-short":
+						god = fmt.Sprintf(" @go(type: %q)", n)
+					case "go-pkg":
+						god = fmt.Sprintf(" @go(type: %q)", "props."+n)
+					case "go-full":
+						god = fmt.Sprintf(" @go(type: %q)", "verif/mc/props."+n)
+					}
+					fmt.Fprintf(&sdl, "type %s implements Beast%s { name: String }\n", n, god)
+				}
+				fmt.Fprintf(&sdl, "union Cats = %s | %s | %s\n", names[mperm[0]], names[mperm[1]], names[mperm[2]])
+				q := &c08NQuery{}
+				var want []interface{}
+				for _, di := range dperm {
+					q.Cats = append(q.Cats, mk(names[di]))
+					q.Beasts = append(q.Beasts, mk(names[di]))
+					want = append(want, map[string]interface{}{"__typename": names[di], "name": val[names[di]]})
+				}
+				root := ggql.NewRoot(&c08NRoot{Query: q})
+				if err := root.ParseString(sdl.String()); err != nil {
+					panic(core.EngineError{Msg: "C08 name probe schema refused: " + err.Error()})
+				}
+				if b == "register" {
+					for _, n := range names {
+						if err := root.RegisterType(mk(n), n); err != nil {
+							panic(core.EngineError{Msg: err.Error()})
+						}
+					}
+				}
+				text := "{cats{__typename ... on Lynx{name} ... on SnowLynx{name} ... on LynxCub{name}} beasts{__typename name ... on LynxCub{n2: name}}}"
+				var res map[string]interface{}
+				pi := core.Safe(func() { res = root.ResolveString(text, "", nil) })
+				detail := map[string]interface{}{"sdl": sdl.String(), "query": text, "go_values_in_order": fmt.Sprint(dperm), "binding": b}
+				if pi != nil {
+					c.Violation("panic", map[string]string{"site": pi.Site, "class": pi.Class, "part": "names"}, detail)
+					continue
+				}
+				wantB := make([]interface{}, len(want))
+				for i, w := range want {
+					m := map[string]interface{}{}
+					for k, v := range w.(map[string]interface{}) {
+						m[k] = v
+					}
+					if m["__typename"] == "LynxCub" {
+						m["n2"] = m["name"]
+					}
+					wantB[i] = m
+				}
+				wantData := map[string]interface{}{"cats": want, "beasts": wantB}
+				got := world.Canon(res["data"])
+				if dd := world.Diff(world.Canon(wantData), got, ""); dd != "" || res["errors"] != nil {
+					c.Outcome("names-diff")
+					detail["diff"], detail["errors"], detail["data"] = dd, res["errors"], got
+					c.Violation("data-diff", map[string]string{"part": "names", "binding": b}, detail)
+					continue
+				}
+				c.Outcome("names-agree")
+			}
+		}
 	}
 }
